@@ -62,7 +62,7 @@ def angle_close(a, b, tol=2e-7):
     return abs(a - b) <= tol
 
 
-def check_ray(ctx, path, rg, i, j, answer, cj, exact_signs=True):
+def check_ray(ctx, path, rg, i, j, answer, cj, boundary=False):
     n = path.numinterfaces
     idx = path.rays.indices[:, i, j]
     pts = [path.interfaces[k].points.coords[idx[k]] for k in range(n)]
@@ -108,12 +108,14 @@ def check_ray(ctx, path, rg, i, j, answer, cj, exact_signs=True):
             if got is None:
                 ctx.violate(f"{which} leg missing at interface {k}", cj, tags)
                 continue
-            near_boundary = min(abs(abs(want["phi"]) - np.pi / 2), 10) < 1e-9
+            # generic frames: skip sign decisions within 1e-9 of the azimuth boundaries (einsum rounding decides them);
+            # boundary stream (identity frames, exactly representable legs): the decision is exact and is checked
+            near_boundary = (not boundary) and min(abs(abs(want["phi"]) - np.pi / 2), 10) < 1e-9
             if not (0 <= got["polar"] <= np.pi and angle_close(got["polar"], want["theta"]) and got["angle"] == got["polar"]):
                 ctx.violate(f"{which}_angle({k}) = {got['polar']} is not the polar angle {want['theta']} of the leg in the local frame", cj, tags)
             if not angle_close(got["azimuth"], want["phi"]) and not (abs(abs(want["phi"]) - np.pi) < 1e-7 and abs(abs(got["azimuth"]) - np.pi) < 1e-7):
                 ctx.violate(f"{which}_leg_azimuth({k}) = {got['azimuth']} differs from {want['phi']}", cj, tags)
-            if (exact_signs or not near_boundary) and not near_boundary and not angle_close(got["signed"], want["signed"]):
+            if not near_boundary and not angle_close(got["signed"], want["signed"]):
                 ctx.violate(f"signed_{which}_angle({k}) = {got['signed']}: the rule (+theta iff azimuth in (-pi/2, pi/2]) gives {want['signed']} "
                             f"(theta={want['theta']}, azimuth={want['phi']})", cj, {**tags, "kind": "signed_rule"})
             if side is None:
@@ -233,7 +235,7 @@ def run(ctx):
         cj = {"op": "raygeom", "line": l, "ray": [i, j], "boundary": boundary}
         ctx.case(l, path.numinterfaces >= 3, sample={"numinterfaces": path.numinterfaces, "ray": [i, j], "boundary": boundary} if path.numinterfaces >= 3 else None)
         ctx.count("boundary" if boundary else f"n={path.numinterfaces}")
-        check_ray(ctx, path, rg, i, j, a, cj)
+        check_ray(ctx, path, rg, i, j, a, cj, boundary=boundary)
         if id(path) not in seen:
             seen.add(id(path))
             check_reverse_and_negative(ctx, path, rg, {"op": "reverse/negative", "numinterfaces": path.numinterfaces, "first_ray": l})
